@@ -102,7 +102,10 @@ def handle (args : List String) (obs : String) : String :=
     let results := (phases.zip obsPhases).map fun (ph, ob) =>
       match ph.splitOn "@", ob.splitOn "#" with
       | [logger, progsS], [resS, evS] =>
-        let sink := if logger == "A" ∨ logger == "S" then Sink.installed true else if logger == "D" then .installed false else .none
+        -- X: the logger is uninstalled while a thread is still inside a logging call: the captured events are a prefix
+        -- of what the thread logs (later calls go to the default logger); the next phase must be able to install its own
+        let isX := logger == "X"
+        let sink := if logger == "A" ∨ logger == "S" ∨ isX then Sink.installed true else if logger == "D" then .installed false else .none
         match (progsS.splitOn "/").mapM (fun p => (splitNonEmpty p ",").mapM parseOp) with
         | none => ("bad-case", ["bad-case"])
         | some progs =>
@@ -112,13 +115,15 @@ def handle (args : List String) (obs : String) : String :=
           let perThread : List (List String) := (List.range progs.length).map fun t => obsEvents.filter fun e => threadOf e == some t
           let expPerThread : List (List String) := runs.map fun (r : List String × List (Event × List Tag)) => r.2.map (fun (p : Event × List Tag) => showEvent p.1)
           let allAssigned := obsEvents.all fun e => (threadOf e).isSome
-          let ok := resS == expRes && perThread == expPerThread && allAssigned
+          let ok := resS == expRes && allAssigned &&
+            (if isX then (perThread.zip expPerThread).all (fun (o, e) => o.isPrefixOf e) else perThread == expPerThread)
           -- model column: echo the observation when every thread's subsequence is as predicted
           let modelS := if ok then ob else expRes ++ "#" ++ ";".intercalate expPerThread.flatten
           -- oracle: independent statement over the captured events
           let fails : List String :=
             (if resS == expRes then [] else ["call-results"]) ++
-            (if obsEvents.length == (expPerThread.map List.length).sum then [] else ["event-count-not-one-per-call"]) ++
+            (if obsEvents.length == (expPerThread.map List.length).sum ∨ (isX ∧ obsEvents.length ≤ (expPerThread.map List.length).sum) then []
+             else ["event-count-not-one-per-call"]) ++
             (if allAssigned then [] else ["event-from-unknown-thread"]) ++
             ((perThread.zip runs).flatMap fun ((obsT, r) : List String × (List String × List (Event × List Tag))) =>
               ((obsT.zip r.2).flatMap fun ((oh, (expE, given)) : String × (Event × List Tag)) =>
